@@ -1002,6 +1002,17 @@ func (c *client) establishRegion(reg hrpc.RegionInfo, addr string) {
 			})
 		}
 
+		// Close() closes the done channel before closing the region
+		// clients it finds in the cache, so a region client that was
+		// put in the cache after that has to be closed here, otherwise
+		// it would outlive the closed client.
+		select {
+		case <-c.done:
+			client.Close()
+			return
+		default:
+		}
+
 		// connect to the region's regionserver.
 		// only the first caller to Dial gets to actually connect, other concurrent calls
 		// will block until connected or an error.
